@@ -54,6 +54,15 @@ theorem unack_stamped_from_nextRecv :
     Gen.Facts.unAckSeqAssignments.all (fun x => x.2 == "s.nextRecv.Load()") = true ∧
     Gen.Facts.unAckSeqAssignments.length = 4 := by decide
 
+/-- Structural tie (regenerated from session.go): in both ack paths the sender discards a segment
+    only when `seq < unAckSeq` — never the segment the peer is still waiting for. -/
+theorem discard_predicate_is_strict :
+    (Gen.Facts.deleteMinIfPredicates.filter (fun x => x.2.1 == "s.sendBuf")) =
+      [("Session.inputData", "s.sendBuf", "{ seq, _ := iter.Seq() return seq < unAckSeq }"),
+       ("Session.inputAck", "s.sendBuf", "{ seq, _ := iter.Seq() return seq < unAckSeq }")] ∧
+    (Gen.Facts.seqCounterAdds.filter (fun x => x.2.1 == "s.nextRecv")) =
+      [("Session.moveRecvBufToRecvQueue", "s.nextRecv", "1")] := by decide
+
 /-! ## Non-vacuity -/
 example : ∃ s, Reach 4 s ∧ s.acked = [1] ∧ s.sent.length = 2 := by
   let s1 : St := { init with segs := [5] }
